@@ -1,12 +1,6 @@
 //! Data properties: C10, C14–C19 (see /verif/DESIGN.md §7).
-mod c10;
-mod c11;
-mod c14;
-mod c15;
-mod c16;
-mod c17;
-mod c18;
-mod c19;
+
+use chk_data::{c10, c11, c14, c15, c16, c17, c18, c19};
 
 fn main() {
     let args: Vec<String> = std::env::args().collect();
